@@ -137,7 +137,13 @@ theorem filter_params_eq {σ} (n : B) (ps : List (Param σ)) :
 theorem OpShape.map {route : B} {o : Operation IR} (f : IR → Schema) (h : OpShape route o) : OpShape route (o.map f) := by
   have hp : pairsOf (o.map f).params = pairsOf o.params := by
     simp [pairsOf, Operation.map, Param.map, Function.comp_def]
-  refine ⟨?_, by rw [hp]; exact h.nodup, by rw [hp]; exact h.route, ?_, ?_, ?_⟩
+  refine ⟨?_, by rw [hp]; exact h.nodup, by rw [hp]; exact h.route, ?_, ?_, ?_, ?_⟩
+  rotate_left 4
+  · intro r hr
+    simp only [Operation.map] at hr
+    have := (sortResps_perm _).mem_iff.1 hr
+    obtain ⟨r0, hr0, rfl⟩ := mem_map.1 this
+    exact h.exX r0 hr0
   rotate_left 3
   · intro p hp'
     simp only [Operation.map, mem_map] at hp'
